@@ -49,17 +49,18 @@ def backward_cases(ctx, n2=None):
         for op in OPS2:
             k += 1
             data = "distinct"
-            if op.startswith("max") and gi % 4 == 0:
-                data = "ints"            # repeated values: ties inside windows
-            P = cc.make_payload(rng, op, g, bias=(k % 2 == 0), form="tuple" if k % 3 else "int", data=data, layout=cc.LAYOUTS[gi % 8])
+            if op.startswith("max") and gi % 2 == 0:
+                data = (("ints",) + cc.TIE_KINDS)[(gi // 2) % 6]           # repeated values: ties inside windows
+            P = cc.make_payload(rng, op, g, bias=(k % 2 == 0), form="tuple" if k % 3 else "int", data=data, layout=cc.LAYOUTS[gi % 8],
+                                dtypes=cc.DTYPES[(gi // 8) % 4], zero_bias=(gi % 7 == 3))
             if P["form"] == "int" and (g["kH"], g["sH"], g["pH"], g["dH"]) != (g["kW"], g["sW"], g["pW"], g["dW"]):
                 P["form"] = "tuple"
             cases.append((P, (op,) + cc.descr2(g), cc.nontrivial2(g), data))
     for gi, g in enumerate(g1):
         for op in OPS1:
             k += 1
-            data = "ints" if (op.startswith("max") and gi % 4 == 0) else "distinct"
-            P = cc.make_payload(rng, op, g, bias=(k % 2 == 0), data=data, layout=cc.LAYOUTS[gi % 8])
+            data = (("ints",) + cc.TIE_KINDS)[(gi // 2) % 6] if (op.startswith("max") and gi % 2 == 0) else "distinct"
+            P = cc.make_payload(rng, op, g, bias=(k % 2 == 0), data=data, layout=cc.LAYOUTS[gi % 8], dtypes=cc.DTYPES[(gi // 8) % 4], zero_bias=(gi % 7 == 3))
             cases.append((P, (op, g["k"], g["s"], g["p"], g["d"], g["W"]), cc.nontrivial1(g), data))
     return cases, len(g2), len(g1)
 
@@ -118,7 +119,7 @@ def run_part_c02(ctx):
         if nt:
             nontriv.add(d)
         # cheap oracle on every case: torch autograd (where torch has the configuration); at ties: subgradient conditions
-        tied = P["op"].startswith("max") and data == "ints"
+        tied = P["op"].startswith("max") and data != "distinct"
         if tied:
             if not subgradient_ok(P, grads["x"]):
                 torch_flag.append(len(terms) - 1)
@@ -134,7 +135,7 @@ def run_part_c02(ctx):
     mism = list(errors) + [{"case": i, "input": payloads[i]} for i in bad[:50]] + [{"case": i} for i in bad[50:]]
     ctx.tie("convpool/backward kernels (x, weight, bias gradients)", "correspondence", len(terms), len(nontriv), mism, exhaustive=True,
             note="same geometry grid as C06 (%d 2-D, %d 1-D geometries) x ops; distinct integer upstream gradients (multiples of the kernel size for the "
-                 "average pools); every fourth max-pool geometry has repeated values (ties: the model must put the gradient on the first maximum)" % (n2, n1))
+                 "average pools); every second max-pool geometry has a tie-rich image (small integers, ReLU output, constant blocks, flat, negative; ties: the model must put the gradient on the first maximum); float64 / float32 with a preceding call of the other dtype on the same geometry" % (n2, n1))
     # violation search: finite differences + torch on the flagged cases (tie mismatches, torch disagreements), smallest first, and on a sample
     flagged = sorted(set(bad) | set(torch_flag), key=lambda i: len(json.dumps(payloads[i])))
     sample = [i for i in rng.sample(range(len(terms)), min(len(terms), 25 if ctx.quick else 150)) if i not in flagged]
@@ -172,8 +173,10 @@ def compose_conv(P, backward):
     np, NF, sg = impl.np, impl.NF, impl.synapgrad
     g = P["g"]
     ks, st, pd, dl = cc.geo_args(P)
-    x, w = cc.T(P["x"], backward, P.get("layout", "C")), cc.T(P["w"], backward)
-    b = cc.T(P["b"], backward) if P.get("b") is not None else None
+    cc.prewarm(P)
+    dt = P.get("dtype", "f64")
+    x, w = cc.T(P["x"], backward, P.get("layout", "C"), dt), cc.T(P["w"], backward, "C", dt)
+    b = cc.T(P["b"], backward, "C", dt) if P.get("b") is not None else None
     Co = w.shape[0]
     U = NF.unfold(x, ks, dl, st, pd)                      # (N, R, L)
     out = w.reshape((Co, -1)) @ U                         # (N, Co, L)
@@ -183,10 +186,10 @@ def compose_conv(P, backward):
     out = out.reshape((g["N"], Co, lH, lW))
     res = {"out": np.array(out.data, dtype=np.float64)}
     if backward:
-        out.backward(sg.Tensor(np.array(P["up"], dtype=np.float64)))
-        res["grads"] = {"x": np.array(x.grad.data), "w": np.array(w.grad.data)}
+        out.backward(sg.Tensor(np.array(P["up"], dtype=cc.np_dtype(dt))))
+        res["grads"] = {"x": np.array(x.grad.data, dtype=np.float64), "w": np.array(w.grad.data, dtype=np.float64)}
         if b is not None:
-            res["grads"]["b"] = np.array(b.grad.data)
+            res["grads"]["b"] = np.array(b.grad.data, dtype=np.float64)
     return res
 
 
@@ -196,7 +199,9 @@ def compose_pool(P, backward):
     np, NF, sg = impl.np, impl.NF, impl.synapgrad
     g = P["g"]
     ks, st, pd, dl = cc.geo_args(P)
-    x = cc.T(P["x"], backward, P.get("layout", "C"))
+    cc.prewarm(P)
+    dt = P.get("dtype", "f64")
+    x = cc.T(P["x"], backward, P.get("layout", "C"), dt)
     ismax = P["op"].startswith("max")
     U = NF.unfold(x, ks, dl, st, pd, -np.inf if ismax else 0)
     K = g["kH"] * g["kW"]
@@ -205,8 +210,8 @@ def compose_pool(P, backward):
     out = (V.max(dim=2) if ismax else V.mean(dim=2)).reshape((g["N"], g["C"], lH, lW))
     res = {"out": np.array(out.data, dtype=np.float64)}
     if backward:
-        out.backward(sg.Tensor(np.array(P["up"], dtype=np.float64)))
-        res["grads"] = {"x": np.array(x.grad.data)}
+        out.backward(sg.Tensor(np.array(P["up"], dtype=cc.np_dtype(dt))))
+        res["grads"] = {"x": np.array(x.grad.data, dtype=np.float64)}
     return res
 
 
@@ -369,11 +374,12 @@ def run_part_c14(ctx):
     g2 = cc.geometry_2d(rng, ctx.quick)
     terms, payloads, descr, nontriv, verdicts = [], [], set(), set(), []
     k = 0
-    for g in g2:
-        for op in ("conv2d", "max_pool2d", "avg_pool2d"):
+    for gi, g in enumerate(g2):
+        for op, data in (("conv2d", "distinct"), ("max_pool2d", "distinct"), ("avg_pool2d", "distinct"), ("max_pool2d", cc.TIE_KINDS[gi % 5])):
             k += 1
-            P = cc.make_payload(rng, op, g, bias=(k % 2 == 0), form="int" if k % 2 else "tuple", data="distinct", layout=cc.LAYOUTS[(k // 3) % 8])
-            d = (op,) + cc.descr2(g)
+            P = cc.make_payload(rng, op, g, bias=(k % 2 == 0), form="int" if k % 2 else "tuple", data=data, layout=cc.LAYOUTS[gi % 8],
+                                dtypes=cc.DTYPES[(gi // 8) % 4], zero_bias=(gi % 7 == 3))
+            d = (op, data) + cc.descr2(g)
             comp = compose_conv if op == "conv2d" else compose_pool
             rf = cc.call(cc.run_impl, P)
             if rf[0] != "ok":
@@ -400,8 +406,11 @@ def run_part_c14(ctx):
                     G, Co, cc.zl(P["x"]), cc.zl(P["w"]), cc.bias_coq(P.get("b")), cc.zl(co) if cc.is_integral(co) else "[]",
                     G, Co, cc.zl(P["x"]), cc.zl(P["w"]), cc.bias_coq(P.get("b")), cc.zl(fo) if cc.is_integral(fo) else "[]")
             elif op == "max_pool2d":
-                t = "ol_eqb (run_maxpool_via_unfold %s %s) %s && ol_eqb (run_maxpool2d %s %s) %s" % (
-                    G, cc.zl(P["x"]), cc.ozl(co) if cc.is_integral_or_neginf(co) else "[]", G, cc.zl(P["x"]), cc.ozl(fo) if cc.is_integral_or_neginf(fo) else "[]")
+                # values of both sides, and both gradients against the model's rule (the first maximum of the window in row-major
+                # kernel order receives the gradient — np.argmax in max_backward and in Tensor.max)
+                t = "ol_eqb (run_maxpool_via_unfold %s %s) %s && ol_eqb (run_maxpool2d %s %s) %s && zl_eqb (run_maxpool2d_bwd %s %s %s) %s && zl_eqb (run_maxpool2d_bwd %s %s %s) %s" % (
+                    G, cc.zl(P["x"]), cc.ozl(co) if cc.is_integral_or_neginf(co) else "[]", G, cc.zl(P["x"]), cc.ozl(fo) if cc.is_integral_or_neginf(fo) else "[]",
+                    G, cc.zl(P["x"]), cc.zl(P["up"]), cc.zl(rf[1]["grads"]["x"]), G, cc.zl(P["x"]), cc.zl(P["up"]), cc.zl(rc[1]["grads"]["x"]))
             else:
                 t = "qlq_eqb (run_avgpool_via_unfold %s %s) %s && qlq_eqb (run_avgpool2d %s %s) %s" % (G, cc.zl(P["x"]), cc.ql(co), G, cc.zl(P["x"]), cc.ql(fo))
             terms.append(t); payloads.append(P); descr.add(d)
@@ -423,8 +432,8 @@ def run_part_c14(ctx):
     mism = list(errors) + [{"case": i, "input": payloads[i]} for i in bad[:50]] + [{"case": i} for i in bad[50:]]
     ctx.tie("convpool/fused = composition (conv = unfold @ matmul, pool = unfold -> max|mean)", "correspondence", len(terms), len(nontriv), mism,
             exhaustive=True,
-            note="%d 2-D geometries x {conv2d, max_pool2d, avg_pool2d}: the composition computed with synapgrad's own ops vs the model's composition, the fused op "
-                 "vs the model's fused kernel; distinct integer data; additionally fused == composition exactly on values and all gradients" % len(g2))
+            note="%d 2-D geometries x {conv2d, max_pool2d, avg_pool2d on distinct data, max_pool2d on a tie-rich image (small integers / ReLU output / constant blocks / flat / negative)}: the composition computed with synapgrad's own ops vs the model's composition, the fused op "
+                 "vs the model's fused kernel; max-pool gradients of both sides also against the model's first-maximum rule; float64 / float32 operands with a preceding call of the other dtype; additionally fused == composition exactly on values and all gradients" % len(g2))
     ctx.extra["identities_checked_on_implementation"] = len(terms)
     for i, v in sorted(verdicts, key=lambda iv: len(json.dumps(payloads[iv[0]])))[:3]:
         P = payloads[i]
